@@ -725,7 +725,7 @@ func bitwiseRightShift(n, s Number) (Number, error) {
 	case Integer:
 		switch s := s.(type) {
 		case Integer:
-			return Integer(n >> s), nil
+			return shrI(n, s), nil
 		default:
 			return nil, typeError(validTypeInteger, s, nil)
 		}
@@ -740,7 +740,7 @@ func bitwiseLeftShift(n, s Number) (Number, error) {
 	case Integer:
 		switch s := s.(type) {
 		case Integer:
-			return Integer(n << s), nil
+			return shlI(n, s), nil
 		default:
 			return nil, typeError(validTypeInteger, s, nil)
 		}
@@ -1262,6 +1262,28 @@ func modI(x, y Integer) (Integer, error) {
 		m += y
 	}
 	return m, nil
+}
+
+// shlI shifts n by s bits to the left; a negative s shifts to the right instead.
+func shlI(n, s Integer) Integer {
+	if s < 0 {
+		if s == minInt {
+			s = minInt + 1
+		}
+		return n >> -s
+	}
+	return n << s
+}
+
+// shrI shifts n by s bits to the right; a negative s shifts to the left instead.
+func shrI(n, s Integer) Integer {
+	if s < 0 {
+		if s == minInt {
+			s = minInt + 1
+		}
+		return n << -s
+	}
+	return n >> s
 }
 
 func negI(x Integer) (Integer, error) {
